@@ -1,4 +1,5 @@
-CONSTANT Present <- TracePresent
+CONSTANT PresentAt <- TracePresentAt
+CONSTANT StaleReuse = FALSE
 CONSTANT SharedHandle = FALSE
 INIT Init
 NEXT Next
